@@ -12,7 +12,18 @@ pub fn compare_with_ref(prop: &str, doc: &Automerge, what: &str, heads_sample: &
     let o = obs_of(doc, None, what)?.without_spans();
     let r = rd.observe(None);
     if let Some((kind, d)) = first_diff(&r, &o) {
-        return Err(Failure::new(format!("{prop}:current:{kind}"), format!("{what}: RefDoc vs document: {d}")));
+        // classifier: does a reload of the same document agree with the model? then the live document's index is stale
+        let mut sig = format!("{prop}:current:{kind}");
+        if kind == "marks" {
+            if let Ok(l) = Automerge::load_with_options(&doc.save(), crate::engine::interp::load_opts(doc.text_encoding())) {
+                if let Ok(lo) = obs_of(&l, None, what) {
+                    if first_diff(&r, &lo.without_spans()).is_none() {
+                        sig.push_str(":live-mark-index-stale(reload-agrees-with-the-model)");
+                    }
+                }
+            }
+        }
+        return Err(Failure::new(sig, format!("{what}: RefDoc vs document: {d}")));
     }
     t.extra_evals += 1;
     for h in heads_sample {
